@@ -52,6 +52,10 @@ quantifier, while
 
 Prefer defects that need a somewhat unusual - but allowed - input, option combination or call history to show, rather than
 ones every call trips over.
+Aim for a corner of the quantifier's input space that a random test generator written from the property text alone would
+be unlikely to reach: unusual sizes or counts, rare but allowed combinations of options, other spellings of the same argument
+(paths, cases, iterables of another type), rarely used public entry points or methods that share the code, values at the
+edge of what the statement allows, state left behind by an earlier call.
 
 Deliverables in `{out}`:
 1. `patch.diff` - `cd {wt} && git diff > {out}/patch.diff` (must apply with `git apply` on a clean checkout).
